@@ -3,7 +3,7 @@
 # Applies <seeded-dir>/patch.diff to /repo, runs the quick tier of the named
 # checks, and restores /repo. Prints one line per check: <id> exit=<n> sigs=...
 set -u
-d="$1"; shift
+d="$(cd "$1" && pwd)"; shift
 cd /repo || exit 2
 if ! git diff --quiet; then echo "/repo has uncommitted changes"; exit 2; fi
 git apply "$d/patch.diff" || { echo "patch does not apply"; exit 2; }
